@@ -160,6 +160,43 @@ func WriteTable(t *gen.Table) (data []byte, err error) {
 	return buf.Bytes(), err
 }
 
+// FlakyWriter fails its FailAt-th Write (1-based) with ErrFlaky; if Sticky every later
+// Write fails too. It records how many writes it saw.
+type FlakyWriter struct {
+	Buf    bytes.Buffer
+	FailAt int
+	Sticky bool
+	Writes int
+	Failed bool
+}
+
+var ErrFlaky = fmt.Errorf("harness: injected write error")
+
+func (f *FlakyWriter) Write(b []byte) (int, error) {
+	f.Writes++
+	if f.FailAt > 0 && (f.Writes == f.FailAt || (f.Sticky && f.Writes > f.FailAt)) {
+		f.Failed = true
+		return 0, ErrFlaky
+	}
+	return f.Buf.Write(b)
+}
+
+// WriteTableFlaky writes the table through fw and reports the error of the first API call
+// that failed (nil if AddRef/AddLog/Close all returned nil).
+func WriteTableFlaky(t *gen.Table, fw *FlakyWriter) error {
+	return Safe(func() error {
+		cfg := Config(t.Cfg)
+		w, err := reftable.NewWriter(fw, &cfg)
+		if err != nil {
+			return err
+		}
+		if err := WriteRecords(w, t); err != nil {
+			return err
+		}
+		return w.Close()
+	})
+}
+
 // MaxRecords bounds every iteration done by the harness.
 var MaxRecords = 1 << 22
 
